@@ -39,6 +39,32 @@ func vrgCovers(req, stored []string) bool {
 	return true
 }
 
+// vrgUnder: is the stored element sequence at or below the requested path? Decided by key NAMES (the lists of the test
+// schema and their key statements), so a key the request leaves out selects every value of it.
+func vrgUnder(p *sdcpb.Path, stored []string) bool {
+	listKeys := map[string][]string{"interface": {"name"}, "subinterface": {"index"}, "doublekey": {"key1", "key2"}, "network-instance": {"name"}}
+	i := 0
+	for _, pe := range p.GetElem() {
+		if i >= len(stored) || stored[i] != pe.GetName() {
+			return false
+		}
+		i++
+		if len(pe.GetKey()) == 0 {
+			continue
+		}
+		for _, k := range listKeys[pe.GetName()] {
+			if i >= len(stored) {
+				return false
+			}
+			if v, given := pe.GetKey()[k]; given && v != stored[i] {
+				return false
+			}
+			i++
+		}
+	}
+	return true
+}
+
 func vrgFlatten(prefix string, v any, out *[]string) {
 	switch x := v.(type) {
 	case map[string]any:
@@ -51,8 +77,17 @@ func vrgFlatten(prefix string, v any, out *[]string) {
 	case []any:
 		for _, c := range x {
 			if m, ok := c.(map[string]any); ok {
-				name := fmt.Sprint(m["name"])
-				vrgFlatten(prefix+"[name="+name+"]", c, out)
+				// the keys of the entry, by the list's name (last element of the prefix), in the order ToXPath prints them
+				ln := prefix[strings.LastIndex(prefix, "/")+1:]
+				ks := map[string][]string{"interface": {"name"}, "subinterface": {"index"}, "doublekey": {"key1", "key2"}, "network-instance": {"name"}}[ln]
+				if len(ks) == 0 {
+					ks = []string{"name"}
+				}
+				ep := prefix
+				for _, k := range ks {
+					ep += fmt.Sprintf("[%s=%v]", k, m[k])
+				}
+				vrgFlatten(ep, c, out)
 			}
 		}
 	default:
@@ -75,6 +110,12 @@ func TestVerifReplayGetData(t *testing.T) {
 	bv, _ := proto.Marshal(&sdcpb.TypedValue{Value: &sdcpb.TypedValue_BoolVal{BoolVal: true}})
 	stored = append(stored, cache.NewUpdate([]string{"choices", "case2", "log"}, bv, 0, "", 0))
 	intended := []*cache.Update{cache.NewUpdate([]string{"choices", "case1", "case-elem", "elem"}, sv("v"), 5, "x", 0)}
+	// two entries of a two-key list: (a,b) and (b,c)
+	for _, kk := range [][2]string{{"a", "b"}, {"b", "c"}} {
+		stored = append(stored, cache.NewUpdate([]string{"doublekey", kk[0], kk[1], "key1"}, sv(kk[0]), 0, "", 0),
+			cache.NewUpdate([]string{"doublekey", kk[0], kk[1], "key2"}, sv(kk[1]), 0, "", 0),
+			cache.NewUpdate([]string{"doublekey", kk[0], kk[1], "mandato"}, sv("m-"+kk[0]+kk[1]), 0, "", 0))
+	}
 	// two intents hold the description of ethernet-1/1 in the intended store
 	intended = append(intended,
 		cache.NewUpdate([]string{"interface", "ethernet-1/1", "name"}, sv("ethernet-1/1"), 10, "owner1", 0),
@@ -92,7 +133,9 @@ func TestVerifReplayGetData(t *testing.T) {
 		"whole list":                                              {{Elem: []*sdcpb.PathElem{{Name: "interface"}}}},
 		"container with a choice, an intent holds the other case": {{Elem: []*sdcpb.PathElem{{Name: "choices"}}}},
 		"intended: the entries of one intent, another intent holds the same leaf": {ifPath("ethernet-1/1")},
-		"unknown path": {{Elem: []*sdcpb.PathElem{{Name: "nosuchthing"}}}},
+		"two-key list, both keys":                 {{Elem: []*sdcpb.PathElem{{Name: "doublekey", Key: map[string]string{"key1": "a", "key2": "b"}}}}},
+		"two-key list, only the second key (= b)": {{Elem: []*sdcpb.PathElem{{Name: "doublekey", Key: map[string]string{"key2": "b"}}}}},
+		"unknown path":                            {{Elem: []*sdcpb.PathElem{{Name: "nosuchthing"}}}},
 	}
 	n := 0
 	for rname, paths := range requests {
@@ -167,7 +210,7 @@ func TestVerifReplayGetData(t *testing.T) {
 			}
 			for _, u := range src {
 				for _, p := range paths {
-					if vrgCovers(utils.ToStrings(p, false, false), u.GetPath()) {
+					if vrgUnder(p, u.GetPath()) {
 						sp, _ := d.schemaClient.ToPath(context.Background(), u.GetPath())
 						tv, _ := u.Value()
 						want = append(want, utils.ToXPath(sp, false)+"="+utils.TypedValueToString(tv))
@@ -213,7 +256,11 @@ func TestVerifReplayGetData(t *testing.T) {
 				fmt.Printf("REPLAY-FAIL fn=%s clause=requestedPaths input=%s why=error %v\n", fn, in, err)
 				continue
 			}
-			if strings.Join(want, "; ") != strings.Join(got, "; ") {
+			if strings.Join(want, "; ") != strings.Join(got, "; ") && strings.HasPrefix(rname, "two-key list, only the second key") {
+				// recorded finding: the element sequence of a path drops the key names, a path that leaves out the first key
+				// selects by the wrong key
+				fmt.Printf("REPLAY-FAIL fn=%s clause=requestedPaths.known input=%s why=returned [%s], stored at or below the requested paths [%s]\n", fn, in, strings.Join(got, "; "), strings.Join(want, "; "))
+			} else if strings.Join(want, "; ") != strings.Join(got, "; ") {
 				fmt.Printf("REPLAY-FAIL fn=%s clause=requestedPaths input=%s why=returned [%s], stored at or below the requested paths [%s]\n", fn, in, strings.Join(got, "; "), strings.Join(want, "; "))
 				fmt.Printf("REPLAY-FAIL fn=%s clause=answers_are_the_stored_updates input=%s why=returned [%s], stored at or below the requested paths [%s]\n", reader, in, strings.Join(got, "; "), strings.Join(want, "; "))
 			}
